@@ -337,7 +337,9 @@ func checkMergedView(p *Program, r *Report) {
 				nBreak++
 				// stop while the heap is not empty: the top must have a different key
 				if os.Getenv("RSA_DEBUG") == "6" {
-					for k, v := range s.St.facts {
+					for _, k := range sortedFactKeys(s.St) {
+						v := s.St.facts[k]
+						_ = v
 						fmt.Fprintf(os.Stderr, "break fact %s = %v\n", k, v)
 					}
 					fmt.Fprintf(os.Stderr, "first=%s lastTop=%s\n", first.key, lastTop.key)
@@ -572,8 +574,24 @@ func checkMergedView(p *Program, r *Report) {
 		c, _ := runSim(p, a.newMerged, cfg, nil)
 		hashP := mk("param", fk+"."+a.newMerged.Params[1].Name(), nil)
 		n := 0
+		// the validation loop(s): loops with at least one iteration that examines a
+		// table (other loops over the tables, e.g. collecting names, decide nothing)
+		examining := map[string]bool{}
 		for _, s := range c.Samples {
 			if s.Kind != "back" {
+				continue
+			}
+			cm := termByKey(s.Loop)
+			for _, k := range sortedFactKeys(s.St) {
+				s.St.fterm[k].walk(func(u *Term) {
+					if u.Op == "pcall" && cm != nil && u.Args[0].contains(cm) && (u.Aux == maxN || u.Aux == minN || u.Aux == hashN) {
+						examining[s.Loop] = true
+					}
+				})
+			}
+		}
+		for _, s := range c.Samples {
+			if s.Kind != "back" || !examining[s.Loop] {
 				continue
 			}
 			n++
@@ -583,7 +601,7 @@ func checkMergedView(p *Program, r *Report) {
 			var maxCall, minCall, hashCall *Term
 			curMark := termByKey(s.Loop)
 			var fkeys []string
-			for k := range s.St.facts {
+			for _, k := range sortedFactKeys(s.St) {
 				fkeys = append(fkeys, k)
 			}
 			sort.Strings(fkeys)
@@ -619,7 +637,9 @@ func checkMergedView(p *Program, r *Report) {
 			} else {
 				// no comparison with the previous table on this path: must be the first table
 				spec = fAnd(spec, &Formula{Op: "false"})
-				for k, v := range s.St.facts {
+				for _, k := range sortedFactKeys(s.St) {
+					v := s.St.facts[k]
+					_ = v
 					t := s.St.fterm[k]
 					if t.Op == "eq" && v && (t.Args[0].isNilConst() || t.Args[1].isNilConst()) {
 						spec = fAtom(tEq(hashCall, hashP))
